@@ -23,7 +23,7 @@ META = {
         "ptera.overlay.BaseOverlay.__enter__/__exit__", "ptera.transform.PteraTransformer.visit_FunctionDef (with proceed around the "
         "generator body)/visit_Yield (output executed)", "ptera.probe.Probe._enter/_exit",
     ],
-    "bounds": {"quick": {"history_length": "<= 4 operations over 9 kinds (top-level driver), <= 5 (driver inside an instrumented "
+    "bounds": {"quick": {"history_length": "<= 4 operations over 9 kinds (top-level driver; 5 after the prefixes enter/create/next), <= 5 (driver inside an instrumented "
                                                    "function); two generators of 2 yields each"},
                "thorough": {"history_length": "<= 5 (top-level driver), <= 6 (enclosed driver)"}},
     "out_of_scope": ["dropping the last reference (garbage collection) -- only explicit close() is driven",
@@ -305,6 +305,11 @@ def cases(tier, seed):
                 cs.append({"id": f"top:ops={first},{second},{third}",
                            "params": {"kind": "top", "n": n, "first": first, "second": second, "third": third},
                            "budget_s": 5000 if th else 250, "per_path_s": 30})
+    if not th:
+        # one level deeper where it matters most: a generator created and advanced under an open overlay, then two more steps
+        for (f1, f2, f3) in ((1, 3, 5), (1, 4, 6), (3, 1, 5), (1, 3, 3)):
+            cs.append({"id": f"top5:ops={f1},{f2},{f3}", "params": {"kind": "top", "n": 5, "first": f1, "second": f2, "third": f3},
+                       "budget_s": 250, "per_path_s": 30})
     for first in (3, 4, 9):
         for second in range(2, 10):
             cs.append({"id": f"enclosed:ops={first},{second}", "params": {"kind": "enclosed", "n": 6 if th else 5, "first": first,
